@@ -1161,8 +1161,26 @@ def pre_build(ctx):
     py2lean.pre_build(ctx, ("graph",))
 
 
+DEFAULT_FILTER_STMT = "persim.gromov_hausdorff(np.array([[0,1,0,0],[1,0,0,0],[0,0,0,1],[0,0,1,0]]), np.array([[0,1],[1,0]]))"
+
+
+def default_filter_probe(ctx):
+    """[T] `a disconnected graph is handled WITH A WARNING` as the caller experiences it: in a fresh interpreter under
+    Python's own warning filters (the other streams record with simplefilter("always"), which would hide a filter that
+    `import persim` installs), the call must deliver a warning"""
+    res = common.warnings_under_default_filters(DEFAULT_FILTER_STMT)
+    if res is None:
+        ctx.count("default_filter_probe:not_run")
+        return
+    ctx.test("warning_reaches_caller_under_default_filters", res[0] >= 1)
+    if res[0] < 1:
+        ctx.violation("no warning reaches the caller under the interpreter's default warning filters for: %s" % DEFAULT_FILTER_STMT,
+                      {"op": "default_filter_probe", "stmt": DEFAULT_FILTER_STMT}, found_input=True)
+
+
 def run(ctx):
     py2lean.report_broken(ctx, PROP_FILES)
+    default_filter_probe(ctx)
     warnings.filterwarnings("ignore", category=sps.SparseEfficiencyWarning)
     ctx.extra["source_digest"] = common.source_digest(
         "persim/gromov_hausdorff.py", ["gromov_hausdorff", "make_distance_matrix_from_adjacency_matrix",
@@ -1197,6 +1215,10 @@ def cov_probe():
 def replay(ctx, rep):
     c = rep["case"]
     op = c.get("op")
+    if op == "default_filter_probe":
+        res = common.warnings_under_default_filters(c["stmt"])
+        print("warnings delivered under default filters:", res)
+        return res is None or res[0] >= 1
     if op == "dist":
         obj = pack(c["entries"], c.get("container", "list")) if well_formed(c["entries"]) else c["entries"]
         code = run_dist(obj)
